@@ -201,10 +201,10 @@ let () =
                     out id "M" (join (List.map (fun e -> item_of true e.e_payload e.e_tag e.e_rep) res))
                   else begin
                     out id "M" (join (List.map (fun (p, t) -> item_of false p t None) (expand gshape_shift res)));
-                    (* specification level: the denotation of the cell AS BUILT (element maps as the affine image requires),
-                       cut at the query depth (everything when flattened), restricted to the tag *)
+                    (* specification level: the denotation of the cell AS BUILT, cut at the query depth (everything when
+                       flattened), restricted to the tag *)
                     let d = if flat <> 0 || depth < 0 then nc else depth in
-                    let den = denote_d gshape_apply_required gshape_shift (nat_of_int d) env0 (top env0) in
+                    let den = denote_d gshape_apply gshape_shift (nat_of_int d) env0 (top env0) in
                     out id "S" (join (List.filter_map (fun (p, t) -> if tag_ok flt t then Some (item_of false p t None) else None) den))
                   end))
     | "copy" ->
